@@ -82,6 +82,7 @@ def _run(ctx):
             ("call", dict(module="harness.fields", func="solved_relations", args=dict(dev="barhole", u=[-6, -3, -6]))),
             # a device stated with MIXED prefixes (current_units / length_units is not 1 A/m): nm, mT, uA
             ("call", dict(module="harness.fields", func="solved_relations", args=dict(dev="bar", u=[-9, -3, -6], loop=False)))]
+    jobs.append(("call", dict(module="harness.fields", func="z0_relations", args=dict(z0=0.7))))      # a layer that is not at z = 0
     for k in (1, 3, 25):        # time-dependent applied potential, frames saved every k steps
         jobs.append(("call", dict(module="harness.fields", func="time_dependent_relations", args=dict(k=k, steps=50 if ctx.quick else 90))))
     if not ctx.quick:
